@@ -76,6 +76,7 @@ fn main() {
     if let Some(file) = replay {
         std::process::exit(props::replay_file(&ctx, prop, &file, true));
     }
+    let _ = ctx.meta.set((prop.rule, prop.assumptions));
     core::start_watchdog(ctx.clone());
     // 1. regression files (every shrunk failure ever found), then the property's own stages
     // (VERIF_NO_REGRESS=1 is a developer switch used by the sensitivity tests: it shows what the
